@@ -168,7 +168,7 @@ func c04(r *ev.Run) {
 		}
 		nA, nB := 60, 60
 		if r.Tier == "thorough" {
-			nA, nB = 150, 120
+			nA, nB = 600, 400
 		}
 		if race {
 			nA, nB = nA/4+1, nB/4+1
